@@ -124,6 +124,10 @@ class FileServer(Resource, aiocoap.interfaces.ObservableResource):
         path = request.opt.uri_path
         if any("/" in p or p in (".", "..") for p in path):
             raise InvalidPathError()
+        if len(path) > 1 and path[0] == "":
+            # A leading empty component would make the joined path absolute,
+            # and thus point outside the served directory
+            raise InvalidPathError()
 
         return self.root / "/".join(path)
 
